@@ -8,6 +8,7 @@ cd "$(dirname "$0")"
 VERIF=$(pwd)
 REPO=${VERIF_REPO:-/repo}
 P=$1
+"$(dirname "$(readlink -f "$0")")/tools/cacheguard.sh" 2>/dev/null || "$(dirname "$(readlink -f "$0")")/cacheguard.sh" 2>/dev/null
 export GOFLAGS=-mod=mod GOPROXY=off GOSUMDB=off GOTOOLCHAIN=local CGO_ENABLED=0
 unset GOWORK
 RES="$VERIF/out/$P-mutants.json"
